@@ -72,7 +72,7 @@ def _shards(tier):
     second = [{"n": 12, "second_error": "Unpause"}]
     if tier == "quick":
         return [{"n": 4, "cmds": [a, b]} for a in CMDS for b in CMDS] + [{"n": 5, "cmds": ["none", "none", a], "error": True} for a in CMDS] + second
-    return [{"n": 5, "cmds": [a, b]} for a in CMDS for b in CMDS] + [{"n": 6, "cmds": ["none", "none", a, b], "error": True} for a in CMDS for b in CMDS] + second
+    return [{"n": 5, "cmds": [a, b]} for a in CMDS for b in CMDS] + [{"n": 5, "cmds": ["none", "none", a, b], "error": True} for a in CMDS for b in CMDS] + second
 
 
 OBLIGATIONS = [Obligation(
@@ -84,7 +84,7 @@ OBLIGATIONS = [Obligation(
              "openpectus.engine.command_manager:CommandManager.execute_commands"],
     symbolic="tick increments: arbitrary strictly positive reals (<=10 s) per tick; control command before each tick: selector over none/Start/Stop/Pause/Unpause/Hold/Unhold/Restart",
     bounds={"quick": "Start, 2 idle ticks, then 4 command slots each followed by a tick (7 ticks), one method with a block and a long Wait",
-            "thorough": "Start, 2 idle ticks, then 5 command slots (8 ticks); plus a method whose instruction fails (error pause) followed by command slots; plus (both tiers) a method with two failing instructions, resumed by Unpause at a solver-chosen slot of 12 (second error pause)"},
+            "thorough": "Start, 2 idle ticks, then 5 command slots (8 ticks); plus a method whose instruction fails (error pause) followed by 3 command slots; plus (both tiers) a method with two failing instructions, resumed by Unpause at a solver-chosen slot of 12 (second error pause)"},
     assumptions=["floats modelled as reals (CrossHair RealBasedSymbolicFloat); counterexamples are replayed with IEEE floats",
                  "zero increments excluded (separate boundary, forks every set_value on 'unchanged')",
                  "a tick in which System State changes is tolerated either way (the statement does not fix the order inside a tick)",
